@@ -347,8 +347,10 @@ Definition run_timers (s : st) : st :=
   fold_left (fun s k => timer_fire s (snd k)) (due_from 0 (cs s) (now s)) s.
 
 (* one iteration of uv_run with something keeping the loop alive: poll phase
-   (uv__work_done), closing handles, uv__update_time, timers *)
+   (uv__io_poll updates loop->time after epoll_pwait, then uv__work_done),
+   closing handles, uv__update_time, timers *)
 Definition iteration (s : st) (beh : nat -> list op) (cnt : nat) : st * list event * nat :=
+  let s := set_now s (clock s) in
   let '(s1, e1, n1) := work_done (done s) (set_done s []) beh cnt in
   let '(s2, e2, n2) := run_closing (closingq s1) (set_closingq s1 []) beh n1 in
   (run_timers (set_now s2 (clock s2)), e1 ++ e2, n2).
